@@ -151,6 +151,18 @@ def run(chk):
                                              'boundary_loss')
             chk.run("C04.R4", SITE[eq_type], cfg, go, construct="boundary_loss (weights replaced after construction)")
 
+    from ..lossenv import replaced_field_twin
+    for eq_type in ('statio_PDE', 'nonstatio_PDE'):
+        for d, cond in ((2, 'von neumann'), (1, 'dirichlet')):
+            cfg = {"loss": eq_type, "net": "PINN", "d": d, "condition": cond, "outputs": 1,
+                   "loss_weights": "0 at construction, replaced afterwards"}
+
+            def go(eq_type=eq_type, d=d, cond=cond):
+                return replaced_field_twin(lambda: SingleLoss(E, eq_type, 'PINN', d=d, m_u=1, terms=('bc',), bc=cond, weight_value=0),
+                                           lambda: SingleLoss(E, eq_type, 'PINN', d=d, m_u=1, terms=('bc',), bc=cond), 'loss_weights',
+                                           term_keys=['boundary_loss'])
+            chk.run("C04.R4", SITE[eq_type], cfg, go, construct="boundary_loss (weight 0 at construction, replaced afterwards)")
+
     # per-facet dictionaries
     for eq_type in ('statio_PDE', 'nonstatio_PDE'):
         time = eq_type == 'nonstatio_PDE'
